@@ -46,7 +46,7 @@ template<int D> using view_t = multi::subarray<T, D, ptr_t>;
 struct elem0 { T* p; };  // zero-dimensional result: one element
 using any_view = std::variant<std::monostate, elem0, view_t<1>, view_t<2>, view_t<3>, view_t<4>, view_t<5>>;
 
-struct op_t { std::string name; std::vector<long> a; int recv = 0; };  // recv: 0 lvalue, 1 const lvalue, 2 temporary (the value category of the receiver)
+struct op_t { std::string name; std::vector<long> a; int recv = 0; bool on_array = false; };  // recv: 0 lvalue, 1 const lvalue, 2 temporary (the value category of the receiver)
 
 static T* g_root = nullptr;  // data_elements() of the root
 static long g_root_n = 0;
@@ -61,13 +61,16 @@ struct unsupported { std::string why; };
 
 template<int D> void put(any_view& v, view_t<D>&& nv) { v.template emplace<view_t<D>>(std::move(nv)); }
 
+// the address of an element however it is handed out (T&, T const&, or T&& from a temporary owning array)
+inline T* addr_of(T const& e) { return const_cast<T*>(std::addressof(e)); }
+
 template<int M, class V> constexpr decltype(auto) rcv(V& v) {
 	if constexpr(M == 1) { return std::as_const(v); } else if constexpr(M == 2) { return std::move(v); } else { return (v); }
 }
 
 // call syntax with a mix of index / range / all arguments
-template<int D, int M, class... As>
-void paren_rec(view_t<D>& cur, std::vector<long> const& a, std::size_t pos, any_view& out, As... as) {
+template<int D, int M, class V, class... As>
+void paren_rec(V& cur, std::vector<long> const& a, std::size_t pos, any_view& out, As... as) {
 	if(pos * 3 == a.size()) {
 		if constexpr(sizeof...(As) == 0) {
 			put<D>(out, norm(rcv<M>(cur)()));
@@ -86,20 +89,21 @@ void paren_rec(view_t<D>& cur, std::vector<long> const& a, std::size_t pos, any_
 	}
 	if constexpr(sizeof...(As) < static_cast<std::size_t>(D) && sizeof...(As) < 5) {
 		long k = a[pos * 3], x = a[pos * 3 + 1], y = a[pos * 3 + 2];
-		if(k == 0) { paren_rec<D, M>(cur, a, pos + 1, out, as..., static_cast<multi::index>(x)); }
-		else if(k == 1) { paren_rec<D, M>(cur, a, pos + 1, out, as..., multi::irange(x, y)); }
-		else { paren_rec<D, M>(cur, a, pos + 1, out, as..., multi::_); }
+		if(k == 0) { paren_rec<D, M, V>(cur, a, pos + 1, out, as..., static_cast<multi::index>(x)); }
+		else if(k == 1) { paren_rec<D, M, V>(cur, a, pos + 1, out, as..., multi::irange(x, y)); }
+		else { paren_rec<D, M, V>(cur, a, pos + 1, out, as..., multi::_); }
 	} else {
 		throw unsupported{"paren arity"};
 	}
 }
 
-template<int D, int M>
-void apply_op_m(view_t<D>& cur, op_t const& o, any_view& out) {
+// V: the receiver's type -- a view (view_t<D>) or the owning array itself (the first operation of a program marked '^')
+template<int D, int M, class V>
+void apply_op_m(V& cur, op_t const& o, any_view& out) {
 	auto const& n = o.name;
 	auto const& a = o.a;
 	if(n == "index") {
-		if constexpr(D == 1) { out.template emplace<elem0>(elem0{const_cast<T*>(&rcv<M>(cur)[a[0]])}); }
+		if constexpr(D == 1) { out.template emplace<elem0>(elem0{addr_of(rcv<M>(cur)[a[0]])}); }
 		else { put<D - 1>(out, norm(rcv<M>(cur)[a[0]])); }
 	} else if(n == "sliced")     { put<D>(out, norm(rcv<M>(cur).sliced(a[0], a[1])));
 	} else if(n == "blocked")    { put<D>(out, norm(rcv<M>(cur).blocked(a[0], a[1])));
@@ -109,9 +113,11 @@ void apply_op_m(view_t<D>& cur, op_t const& o, any_view& out) {
 		else { throw unsupported{"stenciled arity"}; }
 	} else if(n == "range")      { put<D>(out, norm(rcv<M>(cur).range({a[0], a[1]})));
 	} else if(n == "front" || n == "back") {
-		if constexpr(D == 1) { out.template emplace<elem0>(elem0{const_cast<T*>(n == "front" ? &rcv<M>(cur).front() : &rcv<M>(cur).back())}); }
+		if constexpr(D == 1) { out.template emplace<elem0>(elem0{n == "front" ? addr_of(rcv<M>(cur).front()) : addr_of(rcv<M>(cur).back())}); }
 		else { if(n == "front") { put<D - 1>(out, norm(rcv<M>(cur).front())); } else { put<D - 1>(out, norm(rcv<M>(cur).back())); } }
-	} else if(n == "addr")       { auto p = &rcv<M>(cur); put<D>(out, norm(*p));
+	} else if(n == "addr")       {
+		if constexpr(M == 2 && !std::is_same_v<V, view_t<D>>) { throw unsupported{"the address of a temporary owning array is deleted on purpose"}; }
+		else { auto p = &rcv<M>(cur); put<D>(out, norm(*p)); }
 	} else if(n == "strided")    { put<D>(out, norm(rcv<M>(cur).strided(a[0])));
 	} else if(n == "dropped")    { put<D>(out, norm(rcv<M>(cur).dropped(a[0])));
 	} else if(n == "taked")      { put<D>(out, norm(rcv<M>(cur).taked(a[0])));
@@ -149,19 +155,21 @@ void apply_op_m(view_t<D>& cur, op_t const& o, any_view& out) {
 	} else if(n == "broadcast") {
 		if constexpr(D < MAXD) { put<D>(out, norm(rcv<M>(cur).broadcasted()[a[0]])); } else { throw unsupported{"dim"}; }
 	} else if(n == "paren") {
-		paren_rec<D, M>(cur, a, 0, out);
+		paren_rec<D, M, V>(cur, a, 0, out);
 	} else {
 		throw unsupported{"unknown op " + n};
 	}
 }
 
 // the receiver's value category selects the overload (&, const&, &&); what is designated must not depend on it
-template<int D>
-void apply_op(view_t<D>& cur, op_t const& o, any_view& out) {
-	if(o.recv == 1) { apply_op_m<D, 1>(cur, o, out); }
-	else if(o.recv == 2) { apply_op_m<D, 2>(cur, o, out); }
-	else { apply_op_m<D, 0>(cur, o, out); }
+template<int D, class V>
+void apply_op_on(V& cur, op_t const& o, any_view& out) {
+	if(o.recv == 1) { apply_op_m<D, 1, V>(cur, o, out); }
+	else if(o.recv == 2) { apply_op_m<D, 2, V>(cur, o, out); }
+	else { apply_op_m<D, 0, V>(cur, o, out); }
 }
+template<int D>
+void apply_op(view_t<D>& cur, op_t const& o, any_view& out) { apply_op_on<D, view_t<D>>(cur, o, out); }
 
 static void jlist(std::ostream& os, std::vector<long> const& v) {
 	os << '[';
@@ -188,6 +196,11 @@ inline void split_recv(op_t& o) {  // "sliced@c" -> sliced on a const receiver, 
 	o.recv = (o.name.substr(at) == "@c") ? 1 : 2;
 	o.name.erase(at);
 }
+inline bool split_on_array(op_t& o) {   // "^sliced": applied to the owning array itself, not to a view of it
+	if(o.name.empty() || o.name[0] != '^') { return false; }
+	o.name.erase(0, 1);
+	return true;
+}
 
 // parse "<D> sizes firsts nops {name nargs args}" from a stream
 struct view_program { int D = 0; std::vector<long> sizes, firsts; std::vector<op_t> ops; };
@@ -203,6 +216,7 @@ inline view_program parse_view_program(std::istream& is) {
 		std::size_t na = 0; is >> o.name >> na;
 		o.a.resize(na);
 		for(auto& x : o.a) { is >> x; }
+		o.on_array = split_on_array(o);
 		split_recv(o);
 	}
 	return p;
